@@ -107,6 +107,7 @@ package encoding
 //@   call validateRaw#1:
 //@     witness rawErr = ret
 //@     assert[C03] @sameinput arg0 == msg && string(arg1) == string(d)
+//@     assert[C03] @pristine mBeginKV(msg) == old(mBeginKV(msg)) && mBeginKV(msg).Value == old(mBeginKV(msg).Value) && nullV(mBeginKV(msg).Value) == old(nullV(mBeginKV(msg).Value)) && string(wireV(mBeginKV(msg).Value)) == old(string(wireV(mBeginKV(msg).Value)))
 //@   ensures[C03] @viaValidateRaw imp(err == nil, rawErr == nil)
 
 //@ func Unmarshal(msg messages.Builder, d []byte) (err error)
